@@ -617,26 +617,25 @@ func c13RwmOnce(c c13Case) []c13MObs {
 	return out
 }
 
-// a thread counts as blocked (busy) only if it was in every one of three executions: a goroutine
-// that was merely slow in one execution is not mistaken for a blocked one
+// The behaviour of the mutex on a script is deterministic; a goroutine that is merely slow can make
+// one execution look different.  The script is executed until two executions agree on the whole
+// observation (at most five times); otherwise the case is reported as unstable and not compared.
 func c13Rwm(c c13Case) (res c13Res) {
-	runs := [][]c13MObs{c13RwmOnce(c), c13RwmOnce(c), c13RwmOnce(c)}
-	res.Completed = true
-	for k := range runs[0] {
-		o := c13MObs{Code: runs[0][k].Code, Blocked: append([]bool{}, runs[0][k].Blocked...)}
-		for _, r := range runs[1:] {
-			if k >= len(r) {
-				continue
-			}
-			if r[k].Code != 1 && o.Code == 1 || (r[k].Code == 0 && o.Code != 0) {
-				o.Code = r[k].Code
-			}
-			for i := range o.Blocked {
-				o.Blocked[i] = o.Blocked[i] && r[k].Blocked[i]
+	var seen [][]c13MObs
+	for n := 0; n < 5; n++ {
+		cur := c13RwmOnce(c)
+		cj, _ := json.Marshal(cur)
+		for _, old := range seen {
+			oj, _ := json.Marshal(old)
+			if string(oj) == string(cj) {
+				res.Completed = true
+				res.MObs = cur
+				return
 			}
 		}
-		res.MObs = append(res.MObs, o)
+		seen = append(seen, cur)
 	}
+	res.Completed = false
 	return
 }
 
